@@ -203,6 +203,31 @@ fn tok(c: char) -> String {
 const SEG_EXTRA: &[char] = &[
     '\u{8}', '\u{1F1E6}', '\u{1F1FA}', '\u{1F3FB}', '\u{FE0F}', '\u{0903}', '\u{0600}', '\u{2764}',
 ];
+/// Hangul syllable parts (GB6-8), Indic conjunct parts (GB9c: consonants of two scripts, virama,
+/// nukta), ZWNJ, a Hebrew accent, Thai SARA AM
+const SEG_EXTRA2: &[char] = &[
+    '\u{1100}', '\u{1161}', '\u{11A8}', '\u{AC00}', '\u{AC01}', '\u{0915}', '\u{0937}', '\u{094D}', '\u{093C}',
+    '\u{0995}', '\u{09CD}', '\u{200C}', '\u{059A}', '\u{0E33}', '\u{0D4D}', '\u{0D15}',
+];
+
+/// a random scalar value from the blocks where the cluster classes live
+fn rand_scalar(rng: &mut Rng) -> char {
+    loop {
+        let (lo, hi) = *rng.pick(&[
+            (0x0000u32, 0x0FFFu32),
+            (0x0900, 0x0DFF),
+            (0x1000, 0x2FFF),
+            (0xA800, 0xD7FF),
+            (0x1F000, 0x1FAFF),
+            (0x11000, 0x11FFF),
+            (0xE0000, 0xE01EF),
+            (0xFE00, 0xFFFF),
+        ]);
+        if let Some(c) = char::from_u32(lo + rng.below((hi - lo + 1) as usize) as u32) {
+            return c;
+        }
+    }
+}
 
 pub fn gen_seg(ctx: &GenCtx, sink: &mut dyn FnMut(String)) {
     // exhaustive over the DESIGN alphabet
@@ -237,6 +262,12 @@ pub fn gen_seg(ctx: &GenCtx, sink: &mut dyn FnMut(String)) {
         al2.push(tok(c));
     }
     let maxlen2 = if ctx.thorough { 5 } else { 4 };
+    // the same over Hangul / Indic conjunct parts, with the joiners and an extender
+    let mut al3: Vec<String> = SEG_EXTRA2.iter().map(|c| tok(*c)).collect();
+    for c in ['a', '\u{0301}', '\u{200D}'] {
+        al3.push(tok(c));
+    }
+    for (al2, maxlen2) in [(al2, maxlen2), (al3, if ctx.thorough { 4 } else { 3 })] {
     for len in 1..=maxlen2 {
         let mut idx = vec![0usize; len];
         'outer2: loop {
@@ -260,6 +291,7 @@ pub fn gen_seg(ctx: &GenCtx, sink: &mut dyn FnMut(String)) {
             }
         }
     }
+    }
     // random longer strings over both
     let mut rng = Rng::new(ctx.seed ^ 0x5E6);
     let mut all: Vec<char> = ALPHABET.to_vec();
@@ -273,6 +305,10 @@ pub fn gen_seg(ctx: &GenCtx, sink: &mut dyn FnMut(String)) {
             // combining marks, joiners and pictographs are over-represented
             let c = if rng.chance(1, 3) {
                 *rng.pick(&['\u{0301}', '\u{200D}', '😀', '\u{2764}', '\u{FE0F}', '\u{1F3FB}', '\u{1F1E6}', '\r', '\n'])
+            } else if rng.chance(1, 4) {
+                *rng.pick(SEG_EXTRA2)
+            } else if rng.chance(1, 4) {
+                rand_scalar(&mut rng)
             } else {
                 *rng.pick(&all)
             };
